@@ -372,7 +372,7 @@ func (d *Driver) judgeC12() {
 					if h.Deadline < 0 || h.Deadline > 100*time.Millisecond {
 						d.h.violate("C12", "health-context-deadline", fmt.Sprintf("i%d.%d health check at %v got a context deadline of %v (must expire within 100ms)", in.idx, o.gen, h.T, h.Deadline), h.T, h.Step)
 					}
-					if h.Result == 'h' {
+					if h.Result == 'h' || h.Result == 'S' {
 						count = 0
 					} else {
 						count++
@@ -411,7 +411,7 @@ func (d *Driver) judgeC12() {
 	if d.plan.Tail > 0 {
 		var lastBad time.Duration = -1
 		for _, h := range d.h.Health {
-			if h.Result != 'h' && h.T > lastBad {
+			if h.Result != 'h' && h.Result != 'S' && h.T > lastBad {
 				lastBad = h.T
 			}
 		}
